@@ -20,5 +20,5 @@ import (
 func main() {
 	run := hx.Start("C12", "Aurora.C12.Corr",
 		"histories of 5..15 node operations over 2..4 files of 1..4 chunks (256 KiB blocks from a pool of 5: shared, repeated, prefix files; manifest roots via POST /aurora, bare roots via POST /bytes): uploads (pinned or not), single-chunk uploads, pyramid exchange + chunk retrieval into the cache, reads, root pins/unpins, DELETE, chunk-transfer registrations, collection runs with capacity 2..10 (some with an access at the interleaving point or a small batch size); non-trivial = a run recycled at least one file; distinct by (capacity, files, operations)")
-	gcx.Main(run, &gcx.C12Oracle{}, 14, 400)
+	gcx.Main(run, &gcx.C12Oracle{}, 20, 900)
 }
